@@ -73,7 +73,7 @@ CONSTANTS
   Modes = {"any"}
   Unroutable = {4}
   MaxPids = 16
-  Grace = 1
+  Grace = 3
   HCap = 1000000
   MaxEnv <- Unlimited
   MaxCfg <- Unlimited
@@ -84,7 +84,9 @@ POSTCONDITION TraceAccepted
 CHECK_DEADLOCK FALSE
 """
 
-DEADLINES = ("P_C12h_T_ProbeEnds", "P_C12h_T_Probed")
+# deadline-type invariants of the trace check: the first two on the harness clock (4 x value + 3 s), the last one in
+# ticks of the checker's own clock (timeout + 3 ticks); inconclusive when the machine was overloaded
+DEADLINES = ("P_C12h_T_ProbeEnds", "P_C12h_T_Probed", "P_C12h_TimeoutBound")
 
 
 def tla_set(xs):
